@@ -3,20 +3,20 @@ import PhysisModel.Base.ParserAPbc
 /-! # `PGood` for the loop combinators of `Base/ParserAPbc.lean` -/
 namespace Physis.A
 
-theorem forGo_good {α} {f : α → P Unit} (hf : ∀ a, PGood (f a)) (w : Bytes) :
+theorem eachGo_good {α} {f : α → P Unit} (hf : ∀ a, PGood (f a)) (w : Bytes) :
     ∀ (l : List α) (s : St) (pk : Nat), Inv w s → pk ≤ budget w.length →
-      Good (budget w.length) (P.forGo f w l s pk) ∧
-      ∀ a s', (P.forGo f w l s pk).out = .ok (a, s') → Inv w s' := by
+      Good (budget w.length) (P.eachGo f w l s pk) ∧
+      ∀ a s', (P.eachGo f w l s pk).out = .ok (a, s') → Inv w s' := by
   intro l
   induction l with
   | nil =>
     intro s pk hs hpk
-    unfold P.forGo
+    unfold P.eachGo
     exact ⟨⟨not_faults_ok _ _, hpk⟩, by intro a s' he; cases he; exact hs⟩
   | cons x l ih =>
     intro s pk hs hpk
     obtain ⟨⟨g1, g2⟩, hi⟩ := hf x w s hs
-    unfold P.forGo
+    unfold P.eachGo
     split
     · next u s' k heq =>
       rw [heq] at g2 hi
@@ -27,10 +27,10 @@ theorem forGo_good {α} {f : α → P Unit} (hf : ∀ a, PGood (f a)) (w : Bytes
     · next x k heq =>
       rw [heq] at g1; exact absurd ⟨x, rfl⟩ g1
 
-theorem PGood.forEach {α} {f : α → P Unit} (l : List α) (hf : ∀ a, PGood (f a)) :
-    PGood (P.forEach l f) := by
+theorem PGood.each {α} {f : α → P Unit} (l : List α) (hf : ∀ a, PGood (f a)) :
+    PGood (P.each l f) := by
   intro w s hs
-  exact forGo_good hf w l s 0 hs (Nat.zero_le _)
+  exact eachGo_good hf w l s 0 hs (Nat.zero_le _)
 
 theorem whileGo_good {c : Nat → Bool} {body : P Unit} (hp : PGood body) (hc : Consumes body) (w : Bytes) :
     ∀ (fuel : Nat) (s : St) (pk : Nat), Inv w s → pk ≤ budget w.length →
